@@ -163,7 +163,17 @@ func checkC12(c c12Case) (o vstat.Outcome) {
 		}
 	}
 	o.V = vstat.Guard("DecryptWithPrivKey", func() *vstat.Violation {
+		ctBefore := append([]byte{}, ct...)
 		pt, err := peer.DecryptWithPrivKey(kd, c.CtxD, ct)
+		if !bytes.Equal(ct, ctBefore) {
+			// the caller's ciphertext is an input: a second decryption of the same bytes must see the same bytes
+			return vstat.Viol("ciphertext-modified", "DecryptWithPrivKey changed the ciphertext buffer it was given (err=%v)", err)
+		}
+		if same {
+			if pt2, err2 := peer.DecryptWithPrivKey(kd, c.CtxD, ct); err2 != nil || !bytes.Equal(pt2, msg) {
+				return vstat.Viol("roundtrip-failed", "decrypting the same ciphertext a second time failed: %v", err2)
+			}
+		}
 		if same {
 			if err != nil {
 				return vstat.Viol("roundtrip-failed", "decrypt(encrypt(m)) failed: %v", err)
